@@ -37,6 +37,34 @@ CHECKS = {
     ),
 }
 
+CHECKS.update({
+    "C04": (
+        "Lean theorems about the model of restore_path / find_path_to / find_path_from / revert_path + exact correspondence (implementation's hash values passed to the model) + proven reference BFS as distance oracle",
+        "Proof (path found iff state in layers 0..D; valid and shortest; assertion unreachable) about the model, tied to the code by running both on generated balls and queries with identical hash values.",
+        "5 C04",
+    ),
+    "C05": (
+        "Lean theorems about the models of MeetInTheMiddle.find_path_to/from/between and InteractiveBfs + exact correspondence + proven reference BFS (minimum over pairs) as oracle",
+        "Proof (shortest path iff distance <= 2D; set-to-set minimum iff <= 2M) about the model, tied to the code by running both on generated balls, sets and depth limits.",
+        "5 C05",
+    ),
+    "C06": (
+        "Lean theorems (soundness for every selection oracle, exactness when unpruned) about models of both beam modes + correspondence replaying recorded torch.argsort choices",
+        "Proof about the model with the score function and argsort as universally quantified oracles; tied to the code by replaying recorded choices through the model and judging results by exact-length reachability.",
+        "5 C06",
+    ),
+    "C07": (
+        "Lean theorems (for all random draws) about models of the three random-walk generators + correspondence replaying recorded torch.randint/randperm draws",
+        "Proof about the model with random draws as universally quantified oracles; tied to the code by replaying recorded draws (outputs must be identical) and judging by exact-length reachability.",
+        "5 C07",
+    ),
+    "C12": (
+        "Lean model of find_path (cached ball + MITM + reversal) with theorems as corollaries of C05/C10 + correspondence on repeated queries on one graph object",
+        "Proof about the model, tied to the code by sequences of queries with varying BFS limits on one graph object; judged by Spec distances and replay.",
+        "5 C12",
+    ),
+})
+
 NOT_YET = {
 }
 
